@@ -125,6 +125,9 @@ def iwc_variants(nlayers=1):
         order = list(range(nlayers, 0, -1))
         v.append({"value": (["WP", "FC", "SAT"] * 2)[:nlayers], "depth_layer": order})
         v.append({"wc_type": "Pct", "value": [20 + 25 * k for k in range(nlayers)], "depth_layer": order})
+    # Depth method with an observation BELOW the bottom of any profile (its value refers to the bottom layer)
+    v.append({"wc_type": "Pct", "method": "Depth", "depth_layer": [0.2, 0.8, 3.5], "value": [70, 40, 55]})
+    v.append({"wc_type": "Prop", "method": "Depth", "depth_layer": [0.3, 3.0], "value": ["FC", "WP"]})
     return v
 
 
@@ -328,7 +331,7 @@ def hard_cases(rnd, n=None, year=2001):
     cases += [
         # parameters of features that are switched off / not applicable, in situations where the feature would matter
         S("Wheat", "Paddy", seed=rnd.randrange(10 ** 6), regime="wet", field={"bunds": False, "z_bund": 0.2, "bund_water": 30}, iwc={"value": ["SAT", "SAT"], "depth_layer": [1, 2]},
-          events=storm_events(year, (4, 20), (150, 90, 200))),
+          events=storm_events(year, (4, 20), (150, 90, 200)), seasons=2),
         S("Maize", "SiltLoam", seed=rnd.randrange(10 ** 6), irr={"method": 4, "kw": {"NetIrrSMT": 85, "MaxIrr": 5, "MaxIrrSeason": 40}}, iwc={"value": ["WP"]}, seasons=2, off_season=True, lead=8),
         S("Wheat", "SandyLoam", seed=rnd.randrange(10 ** 6), regime="arid", crop_kw={"ETadj": 0}, iwc={"wc_type": "Pct", "value": [40]}, seasons=3),
     ]
@@ -346,10 +349,22 @@ def hard_cases(rnd, n=None, year=2001):
           gw={"water_table": "Y", "dates": [f"{year}/04/20"], "values": [0.35]}),
         S("Wheat", seed=rnd.randrange(10 ** 6), soil_spec=LAYERED_SOILS["clay_over_sand"], irr={"method": 4, "kw": {"NetIrrSMT": 70}}, regime="arid",
           iwc={"wc_type": "Pct", "value": [60, 60], "depth_layer": [1, 2]}),
+        # ... with a low threshold: the fine top layer is drawn down to its air-dry content while the moist subsoil keeps the root-zone average up
+        S("Maize", seed=rnd.randrange(10 ** 6), soil_spec=LAYERED_SOILS["clay_over_sand"], irr={"method": 4, "kw": {"NetIrrSMT": 35}}, regime="hot",
+          iwc={"value": ["FC", "FC"], "depth_layer": [1, 2]}),
     ]
     cases += [
         # a winter crop whose seasons span the turn of the year (everything that is fixed per season but tabulated per calendar year)
         S("Wheat", "Loam", seed=rnd.randrange(10 ** 6), plant_md=(10, 15), year=year, seasons=2, irr={"method": 1, "kw": {"SMT": [55] * 4, "AppEff": 85, "WetSurf": 60}}),
+    ]
+    cases += [
+        # reference evapotranspiration at its floor (0.1 mm/day, what prepare_weather clips to) on days with a transpiring canopy
+        S("Wheat", "Loam", seed=rnd.randrange(10 ** 6), events=[{"from": dstr(p0 + _dt.timedelta(days=60)), "to": dstr(p0 + _dt.timedelta(days=63)), "ET0": 0.1},
+                                                              {"date": dstr(p0 + _dt.timedelta(days=90)), "ET0": 0.1}]),
+    ]
+    cases += [
+        # initial bund water above the bund height (capped at every season start), two seasons without off-season
+        S("Tomato", "Paddy", seed=rnd.randrange(10 ** 6), seasons=2, field={"bunds": True, "z_bund": 0.05, "bund_water": 80}, iwc={"value": ["FC", "FC"], "depth_layer": [1, 2]}),
     ]
     # shallow ponds behind bunds under a canopy (pond of the order of a day's transpiration demand during the first days of submergence)
     cases += shallow_pond_cases(rnd, year, crops=("Maize", "Maize", "Tomato"), storms=(13, 22, 25))
